@@ -2,6 +2,7 @@
 import PsutilModel.Model.C18
 import PsutilModel.Model.C18Who
 import PsutilModel.Model.C18Num
+import PsutilModel.Model.C18Alt
 import PsutilModel.Generated.C18
 namespace Psutil.C18
 
@@ -48,5 +49,10 @@ def routing : Routing :=
 /-- width of the signed C integer the native affinity setter holds a CPU number in, as extracted
     from the current source (Model/C18Num.lean) -/
 def cpuNumBits : Nat := Gen.C18.affinitySetCpuBits
+
+/-- the other source the get form of `rlimit` answers from after a refusal, as extracted from the
+    current source (Model/C18Alt.lean); a source the model does not know counts as none here — the
+    obligation `cfg_rlimit_get_single_source` is what breaks then -/
+def rlimitAlt : AltSrc := (AltSrc.ofCode Gen.C18.rlimitGetOtherSources).getD none
 
 end Psutil.C18
